@@ -22,25 +22,60 @@ def result_eq(ctx, a, b):
         return False
     if a.variant == "Ok":
         return hcommon.spec_eq(ctx, a.fields[0], b.fields[0])
+    # both reject: the error kind must agree (the texts inside UnexpectedItem are diagnostics, and
+    # the native replay compares kinds only)
     ea, eb = a.fields[0], b.fields[0]
-    if ea.variant != eb.variant:
-        return False
-    if ea.variant == "UnexpectedItem":
-        return hcommon.spec_eq(ctx, ea, eb)
-    return True
+    return ea.variant == eb.variant
 
 
-def api_job(eng, tables, prop, tname, policy, deadline, max_paths=None, initial=None, bfs=False, slice_s=None):
+def api_job(eng, tables, prop, tname, policy, deadline, max_paths=None, initial=None, bfs=False, slice_s=None,
+            via_bstr=False):
     """from_slice = from_cbor_value . parse (with exactly-one-item discipline); to_vec = serialise .
     to_cbor_value; tagged forms wrap / unwrap exactly the registered tag."""
     if isinstance(policy, dict):
         policy = Policy(**policy)
     path = PATHS.get(tname) or {"Label": "common::Label", "ProtectedHeader": "header::ProtectedHeader"}[tname]
-    job = JobResult("api:%s" % tname)
+    job = JobResult("api:%s%s" % (tname, ":bstr" if via_bstr else ""))
     seen = {}
     tagged = tname in REGISTERED_TAG
 
+    def harness_bstr(ctx):
+        """a protected header taken out of a bstr (it keeps the wire bytes): its byte-level encoding is
+        the serialisation of its Value-level encoding"""
+        eng.policy = policy
+        problems = []
+        empty = ctx.choose(2, "empty-bstr") == 1
+        data = VecV([], None, "vec") if empty else ctx.fresh_opaque("input", "vec", nonempty=True)
+        if not empty:
+            ctx.side["input_ident"] = data.opaque.ident
+        ctx.side["mode"] = "bstr"
+        r = ctx.call("header::ProtectedHeader::from_cbor_bstr", [Adt("Value", "Bytes", [data])])
+        if r.variant != "Ok":
+            return problems
+        if not empty:
+            oc = ctx.side.get("parsed", {}).get(data.opaque.ident)
+            if oc is not None and oc[0] == "ok":
+                ctx.side["node"] = oc[1]
+                ctx.side["exact"] = oc[2]
+        x = r.fields[0]
+        rv = ctx.call("<%s as AsCborValue>::to_cbor_value" % path, [deep_clone(x)])
+        rb = ctx.call("<%s as CborSerializable>::to_vec" % path, [x])
+        if rv.variant != rb.variant:
+            return [("layers-encode", "byte-level and Value-level encoding disagree on success")]
+        if rb.variant == "Ok":
+            out = rb.fields[0]
+            tree = ctx.side.get("written", {}).get(out.opaque.ident if out.elems is None else None)
+            if tree is None:
+                return [("layers-encode", "to_vec output is not the serialisation of a Value")]
+            from jobs_struct import deep_value_eq
+            e2 = deep_value_eq(ctx, tree, rv.fields[0])
+            if e2 is not True and (e2 is False or ctx.check(z3.Not(e2))):
+                return [("layers-encode", "byte-level encoding is not the serialisation of to_cbor_value")]
+        return problems
+
     def harness(ctx):
+        if via_bstr:
+            return harness_bstr(ctx)
         eng.policy = policy
         problems = []
         use_tag = tagged and ctx.choose(2, "tagged") == 1
@@ -140,6 +175,8 @@ def api_job(eng, tables, prop, tname, policy, deadline, max_paths=None, initial=
                 variants = [b"\x00", b"\x18", b"\x41", b"\xff"]
             hexin = data.hex()
         cmds = ["ops api %s %s %s" % (tname, ctx.side.get("mode", "plain"), (hexin + v.hex()) or "-") for v in variants]
+        if via_bstr:
+            cmds = ["ops api ProtectedHeader bstr %s" % (hexin or "-")]
         job.findings.append({"property": prop, "key": key, "what": "%s: %s" % (tname, what), "op": "ops",
                              "type": tname, "input_hex": hexin, "command": cmds[0], "commands": cmds,
                              "predicted": "PANIC" if cls.startswith("panic") else "MISMATCH", "compare": "startswith"})
